@@ -76,6 +76,7 @@ def write_cfg(path, spec=None, init=None, next_=None, constants=None, invariants
     if postcondition:
         lines.append("POSTCONDITION %s" % postcondition)
     lines.append("CHECK_DEADLOCK %s" % ("TRUE" if check_deadlock else "FALSE"))
+    os.makedirs(os.path.dirname(os.path.abspath(path)), exist_ok=True)
     with open(path, "w") as f:
         f.write("\n".join(lines) + "\n")
     return path
